@@ -443,6 +443,9 @@ spif_bool_t
 spif_str_clear(spif_str_t self, spif_char_t c)
 {
     ASSERT_RVAL(!SPIF_STR_ISNULL(self), FALSE);
+    if (self->s == (spif_charptr_t) NULL) {
+        return TRUE;
+    }
     memset(self->s, c, self->size);
     self->s[self->len] = 0;
     return TRUE;
@@ -474,6 +477,9 @@ spif_str_downcase(spif_str_t self)
     spif_charptr_t tmp;
 
     ASSERT_RVAL(!SPIF_STR_ISNULL(self), FALSE);
+    if (self->s == (spif_charptr_t) NULL) {
+        return TRUE;
+    }
     for (tmp = self->s; *tmp; tmp++) {
         *tmp = tolower(*tmp);
     }
@@ -822,6 +828,9 @@ spif_str_trim(spif_str_t self)
     spif_charptr_t start, end;
 
     ASSERT_RVAL(!SPIF_STR_ISNULL(self), FALSE);
+    if (self->s == (spif_charptr_t) NULL) {
+        return TRUE;
+    }
     start = self->s;
     end = self->s + self->len - 1;
     for (; isspace((spif_uchar_t) (*start)) && (start < end); start++);
@@ -843,6 +852,9 @@ spif_str_upcase(spif_str_t self)
     spif_charptr_t tmp;
 
     ASSERT_RVAL(!SPIF_STR_ISNULL(self), FALSE);
+    if (self->s == (spif_charptr_t) NULL) {
+        return TRUE;
+    }
     for (tmp = self->s; *tmp; tmp++) {
         *tmp = toupper(*tmp);
     }
